@@ -274,11 +274,12 @@ def lemma_conditions(pid, tier):
             cs.append(xhrun.Cond("harness_topo", fn, env, timeout=1500, label=fn + "".join(f"_{k[3:].lower()}{v}" for k, v in env.items())))
     if pid in ("C01", "C04"):
         # plan -> engine graph: pruning keeps exactly the needed calls and every dependency between them (also through literals)
-        prune = [("clcc", "", "last"), ("cllc", "", "all"), ("cllcc", "01,12,23,14", "all")]
+        prune = [("clcc", "", "", "lit", "last"), ("cllc", "", "", "lit", "all"), ("cllcc", "01,12,23,14", "02,03,04", "lit", "all")]
         if tier == "thorough":
-            prune += [("lclc", "", "last"), ("clcc", "", "all"), ("cclc", "", "none"), ("cllc", "", "2"), ("cllcc", "01,12,23", "all"),
-                      ("clclc", "01,12,23,34", "last"), ("lcllc", "01,12,23,34", "last")]
-        for kinds, fix, out in prune:
-            cs.append(xhrun.Cond("harness_prune", "c01_prune", {"XH_PKINDS": kinds, "XH_PFIX": fix, "XH_POUT": out}, timeout=1500,
-                                 label=f"prune_{kinds}_fix{fix.replace(',', '_')}_out{out}"))
+            prune += [("clcc", "", "", "all", "last"), ("cllc", "", "", "all", "all"), ("lclc", "", "", "all", "last"), ("clcc", "", "", "all", "all"),
+                      ("cclc", "", "", "all", "none"), ("cllc", "", "", "all", "2"), ("cllcc", "01,12,23,14", "", "lit", "all"),
+                      ("clclc", "01,12,23,34", "02,04", "lit", "last"), ("lcllc", "01,12,23,34", "02,13", "lit", "last")]
+        for kinds, fix, no, ak, out in prune:
+            cs.append(xhrun.Cond("harness_prune", "c01_prune", {"XH_PKINDS": kinds, "XH_PFIX": fix, "XH_PNO": no, "XH_PAK": ak, "XH_POUT": out},
+                                 timeout=2400, label=f"prune_{kinds}_fix{fix.replace(',', '_')}_no{no.replace(',', '_')}_{ak}_out{out}"))
     return cs
